@@ -30,6 +30,48 @@ Theorem C12_readall_delivers_view : forall s acc loads,
 Proof. exact drain_all_view. Qed.
 Print Assumptions C12_readall_delivers_view.
 
+(* ---- file nodes whose children carry no declared size (measured by opening them; File/Unsized.v) ---- *)
+From UV Require Import File.Unsized File.UnsizedProofs File.UnsizedFaults.
+
+(* for every DAG with true sizes, declared or measured, and EVERY set of unavailable blocks: a whole-value read
+   returns a front of the content; it ends without an error only at the end of the whole content (never a shortened
+   value, never end-of-file in place of the error); an error it ends with is the load error of a block of the DAG.
+   (On the pinned tree lengthFromLinks turned a failed measurement into length 0 and the first clause failed:
+   repaired in /repo, 1a39357.) *)
+Theorem C12_unsized_read_fault : forall fault b, uwell b = true ->
+  let '(bs, _, st) := drain_all (ustream fault b 0) [] [] in
+  (exists rest, content b = bs ++ rest /\ (st = StEOF -> rest = []))
+  /\ st <> StOk
+  /\ (forall e, st = StErr e -> exists x, In x (preorder b) /\ fault x = Some e).
+Proof. exact unsized_read_fault. Qed.
+Print Assumptions C12_unsized_read_fault.
+
+(* the same from any offset, for the stream every Read consumes (C12_reads_deliver_view applies to it as it is) *)
+Theorem C12_unsized_stream_fault : forall fault b, uwell b = true -> forall off, 0 <= off ->
+  vok fault (preorder b) (skipz off (content b)) (sview (ustream fault b off)).
+Proof. exact ustream_fault_view. Qed.
+Print Assumptions C12_unsized_stream_fault.
+
+(* measuring (Seek relative to the end) under unavailable blocks: the fault-free length or the load error of a
+   block below, never a wrong length *)
+Theorem C12_unsized_length_fault : forall fault b,
+  match usize fault b with
+  | Ok z => usize nofault b = Ok z
+  | Err e => usize nofault b = Err e \/ exists x, In x (preorder b) /\ fault x = Some e
+  | Panic => usize nofault b = Panic
+  end.
+Proof. exact usize_fault. Qed.
+Print Assumptions C12_unsized_length_fault.
+
+(* KNOWN FINDING (known_findings.json, C12-unsized-children-early-error): the clause "exactly the bytes that precede
+   the missing block's span" fails on such DAGs — every child is measured before the first byte is delivered *)
+Theorem C12_unsized_exact_prefix_refuted :
+  exists b fault, uwell b = true
+    /\ fst (before_fault fault (ustream nofault b 0)) = [97; 98; 99; 100; 101]%N
+    /\ sview (ustream fault b 0) = ([], StErr (ELoad 1)).
+Proof. exact unsized_exact_prefix_refuted. Qed.
+Print Assumptions C12_unsized_exact_prefix_refuted.
+
 (* ---- sharded directories ---- *)
 From UV Require Import Hamt.Build Hamt.Read Hamt.ShardDecode Hamt.Refine Hamt.RefineTrace Hamt.RefineLength Base.Varint.
 From Coq Require Import Permutation.
